@@ -174,7 +174,8 @@ pub fn enum_total(kind: &str, thorough: bool) -> u64 {
 }
 
 const REMNANT_ALPHABET: [char; 18] = ['a', 'i', '\'', '"', '*', '?', '=', '>', '<', '-', '.', '1', '(', ')', ' ', 'é', '\u{130}', '\u{b}'];
-const INSERTS: [&str; 44] = [
+const INSERTS: [&str; 54] = [
+    "1e400", "+.5", "-0", "0o17", "1_000", ".5.", "1e-400", "0x", "--1", "1..2",
     // numbers at and beyond the 64-bit boundaries, odd number syntax, non-ASCII digits
     "9223372036854775808", "99999999999999999999", "9223372036854775807", "-1", "1.2.3", "1e5", "²", "٣", "18446744073709551616", "0.",
     "'", "\"", "-", "=", "==", "(", ")", ",", "é", "日", "🦀", "\u{0}", "\n", " ", "*", "?", "i", ".", "[", "]", "#", ">", "<=", "\t",
@@ -337,7 +338,20 @@ fn mutate_node(y: &mut Yaml, target: usize, i: &mut usize, rng: &mut Rng) -> boo
     false
 }
 
+/// Hand-written looking rule texts that use YAML features the emitter never produces.
+const STYLED: [&str; 5] = [
+    "anchors:\n  - &pat 'foo*'\n  - &blk\n    a: *pat\n    b: bar\ndetection:\n  A: *blk\n  B:\n    <<: *blk\n    c: 1\n  condition: A and B\ntrue_positives:\n- {a: foobar, b: bar}\ntrue_negatives:\n- {a: x}\n",
+    "detection:\n  A:\n    a: |\n      foo\n      bar\n    b: >-\n      folded\n      text\n  condition: >\n    A\ntrue_positives: []\ntrue_negatives: []\n",
+    "detection: {A: {a: [foo, 'b*', \"*c\"], 'all(b)': ['*x*', '*y*']}, B: [{c: 1}, {c: 2}], condition: 'A or all(B)'}\ntrue_positives: [{a: foo, b: xy}]\ntrue_negatives: [{a: q}]\n",
+    "%YAML 1.2\n---\ndetection:\n  ? A\n  : ? a\n    : !!str 1\n  condition: !!str A\ntrue_positives:\n- a: '1'\ntrue_negatives:\n- a: 1\n...\n",
+    "detection:\n  A:\n    'a': \"foo\\tbar\\u00e9\"\n    \"b\": 'it''s'\n  condition: A   # trailing comment\ntrue_positives:\n- a: \"foo\\tbar\\u00e9\"\n  b: \"it's\"\ntrue_negatives: []\n",
+];
+
 fn source_rule(seed: u64, run: u64) -> (String, String) {
+    if run % 11 == 10 {
+        let i = ((run / 11) as usize) % STYLED.len();
+        return (STYLED[i].to_owned(), format!("styled/{}", i));
+    }
     let mut kr = Rng::stream(seed, run, "KNOBS");
     let mut knobs = gen::Knobs::draw(&mut kr);
     knobs.feat |= gen::F_QUOTING;
@@ -493,7 +507,17 @@ pub fn generate(kind: &str, seed: u64, run: u64, thorough: bool) -> Scenario {
             // mappings and sequences, long operator chains
             let mut fr = Rng::stream(seed, run, "STORAGE");
             let depth = *fr.pick(&[1usize, 2, 8, 31, 32, 33, 63, 64]);
-            let (role, s) = match fr.below(8) {
+            // (needles and keys stay at a few KiB: automata for 64 KiB needles take tens of
+            // seconds to build, which is slow, not a loop)
+            let long = *fr.pick(&[255usize, 256, 257, 1023, 1024, 4095, 4096, 4097]);
+            let long_cond = *fr.pick(&[255usize, 256, 257, 4096, 65_535, 65_536]);
+            let (role, s) = match fr.below(14) {
+                8 => ("condition", vec!["A"; long_cond / 6 + 1].join(" and ")),
+                9 => ("condition", "A".repeat(long_cond)),
+                10 => ("pattern", format!("*{}*", "ab".repeat(long / 2))),
+                11 => ("pattern", format!("?{}", "(a|b)".repeat((long / 5).min(2000)))),
+                12 => ("key", "k".repeat(long)),
+                13 => ("many_identifiers", format!("{}", long.min(4097))),
                 0 => ("condition", format!("{}A{}", "(".repeat(depth), ")".repeat(depth))),
                 1 => ("condition", format!("{}A", "not ".repeat(depth))),
                 2 => ("condition", format!("{}A{}", "not (".repeat(depth), ")".repeat(depth))),
@@ -667,6 +691,27 @@ fn exec_text(sc: &Scenario) -> Outcome {
     d.str(&s);
     let role = sc.note.as_str();
     let ys = |x: &str| Yaml::String(x.to_owned());
+    if role == "many_identifiers" {
+        // a rule with hundreds or thousands of identifiers, all referenced by the condition
+        let n: usize = s.parse().unwrap_or(256);
+        let mut det = serde_yaml::Mapping::new();
+        let mut names = vec![];
+        for i in 0..n {
+            let name = format!("I{}", i);
+            det.insert(ys(&name), ymap("a", ys("foo")));
+            names.push(name);
+        }
+        det.insert(ys("condition"), ys(&names.join(" or ")));
+        let mut rule = serde_yaml::Mapping::new();
+        rule.insert(ys("detection"), Yaml::Mapping(det));
+        rule.insert(ys("true_positives"), Yaml::Sequence(vec![]));
+        rule.insert(ys("true_negatives"), Yaml::Sequence(vec![]));
+        let y = Yaml::Mapping(rule);
+        text_case("from_value(many identifiers)", &mut vs, &mut stats, &s, || match Rule::from_value(y.clone()) {
+            Ok(r) => !format!("{}", r.optimise(Default::default()).detection.expression).is_empty(),
+            Err(_) => false,
+        });
+    }
     if role == "nested" {
         // identifier whose mappings nest `depth` levels, as a value and as list members
         let depth: usize = s.parse().unwrap_or(1).min(64);
